@@ -30,7 +30,21 @@ func buildMatrix(ms refmodel.MatrixSpec) *pipeline.Matrix {
 		for k, v := range a.With {
 			w[k] = v
 		}
-		m.Adjustments = append(m.Adjustments, &pipeline.MatrixAdjustment{With: w, Skip: a.Skip})
+		adj := &pipeline.MatrixAdjustment{With: w, Skip: a.Skip}
+		if reason, isStr := a.Skip.(string); isStr && reason != "" {
+			// a skip reason and unknown adjustment fields that mention the matrix: a rejected permutation must not touch them
+			toks := ""
+			for _, d := range ms.Dims {
+				if d == "" {
+					toks += " {{matrix}}"
+				} else {
+					toks += " {{ matrix." + d + " }}"
+				}
+			}
+			adj.Skip = reason + toks
+			adj.RemainingFields = map[string]any{"soft_fail": []any{map[string]any{"exit_status": strings.TrimSpace(toks)}}, "note": "for" + toks}
+		}
+		m.Adjustments = append(m.Adjustments, adj)
 	}
 	return m
 }
